@@ -248,10 +248,11 @@ class World:
         if self.jfd is not None:
             os.write(self.jfd, (text + "\n").encode())
 
-    def execute(self, case, plan, min_size=0, domain_mask=7, tag=""):
+    def execute(self, case, plan, min_size=0, domain_mask=7, tag="", reset=True):
         A = self.A
         A.set_plan([])
-        reset_world()
+        if reset:
+            reset_world()
         ops = list(case["setup"]) + [case["target"]]
         slots = [None] * len(ops)
         tr = Tracker()
@@ -318,10 +319,18 @@ def check_faulted(world, case, plan, ref_out, out, st, mon, ctr, sites, min_size
         viols.append(dict(base, kind="heap_buffer_leaked", leaks=st["leaks"], bytes=st["leak_bytes"], site=_site(st) if st["fired"] else None))
     for v in mon:
         viols.append(dict(base, **v))
-    # O4: the same operation, fault-free, right afterwards
-    out2, st2, mon2 = world.execute(case, [], tag="after")
+    # O4/O5: the same operation, fault-free, right afterwards -- first with the caches exactly as the
+    # faulted call left them (a MemoryError must not have been memoised as a half-built value in
+    # any LRU, side table or per-object memo), then once more from empty caches
+    out2, st2, mon2 = world.execute(case, [], tag="after", reset=False)
     if out2 != ref_out:
-        viols.append(dict(base, kind="later_call_wrong", got=_trim(out2), want=_trim(ref_out)))
+        viols.append(dict(base, kind="later_call_wrong", got=_trim(out2), want=_trim(ref_out), when="caches as left by the faulted call"))
+    if st["fired"]:
+        out3, st3, _ = world.execute(case, [], tag="after")
+        if out3 != ref_out:
+            viols.append(dict(base, kind="later_call_wrong", got=_trim(out3), want=_trim(ref_out), when="caches emptied"))
+        if st3["leaks"]:
+            viols.append(dict(base, kind="heap_buffer_leaked", leaks=st3["leaks"], when="fault-free rerun"))
     if st2["leaks"]:
         viols.append(dict(base, kind="heap_buffer_leaked", leaks=st2["leaks"], when="fault-free rerun"))
     return viols
